@@ -155,7 +155,20 @@ func runCheck(repo, vdir, prop, tier string, verbose, updateBaseline, writeEvide
 		}
 		obls = append(obls, ob)
 	}
+	tGen := time.Since(t0).Seconds()
 	results := dischargeAll(x, obls, timeout, tier == "thorough")
+	if verbose {
+		fmt.Fprintf(os.Stderr, "generated %d obligation instances in %.1fs, discharged in %.1fs\n", len(obls), tGen, time.Since(t0).Seconds()-tGen)
+		slow := map[string]float64{}
+		for i, r := range results {
+			if r.Seconds > 1.0 || r.Status == "unknown" {
+				slow[obls[i].Func+"#"+obls[i].Kind+fmt.Sprint(r.Tried)+firstLines(r.Detail, 2)] += r.Seconds
+			}
+		}
+		for k, v := range slow {
+			fmt.Fprintf(os.Stderr, "slow: %s %.1fs\n", k, v)
+		}
+	}
 
 	// group by name
 	groups := map[string]*oblGroup{}
